@@ -25,6 +25,7 @@ const STAGES: &[(&str, StageFn)] = &[
     ("c01.exhaustive", c01::exhaustive),
     ("c01.random", c01::random),
     ("c01.bytes", c01::bytes),
+    ("c01.longruns", c01::longruns),
     ("c02.codes", c02::codes),
     ("c02.sampled", c02::sampled),
     ("c02.streams", c02::streams),
@@ -56,6 +57,8 @@ const STAGES: &[(&str, StageFn)] = &[
     ("c08.manyrecs", c08::manyrecs),
     ("c09.exhaustive", c09::exhaustive),
     ("c09.random", c09::random),
+    ("c09.longruns", c09::longruns),
+    ("c18.longruns", c09::longruns),
     ("c10.lib", c10::lib),
     ("c10.sched_exhaustive", c10::sched_exhaustive),
     ("c10.sched_random", c10::sched_random),
